@@ -240,11 +240,13 @@ func VerifC10_PublicAPI() {
 			want = append(want, name)
 		}
 	}
+	// an edge of another kind between the same two nodes is another edge
+	zzverif.Assert(wg.UpsertEdge(from, to, ComputedEdge, "", "") == nil, "upsert-succeeds")
 	zzverif.Assert(wg.UpsertEdge(from, other, TTUEdge, "doc#parent", "") == nil, "upsert-succeeds")
 	zzverif.Assert(wg.UpsertEdge(nil, to, DirectEdge, "", "") != nil, "upsert-without-node-is-an-error")
 	edges, ok := wg.GetEdgesFromNode(from)
-	zzverif.Assert(ok && len(edges) == 2, "one-edge-per-target-kind-and-tupleset")
-	if !ok || len(edges) != 2 {
+	zzverif.Assert(ok && len(edges) == 3, "one-edge-per-target-kind-and-tupleset")
+	if !ok || len(edges) != 3 {
 		return
 	}
 	e := edges[0]
@@ -255,7 +257,8 @@ func VerifC10_PublicAPI() {
 		}
 	}
 	zzverif.Assert(e.GetFrom() == from && e.GetTo() == to && e.GetEdgeType() == DirectEdge && e.GetTuplesetRelation() == "", "edge-getters")
-	zzverif.Assert(edges[1].GetTo() == other && edges[1].GetEdgeType() == TTUEdge && edges[1].GetTuplesetRelation() == "doc#parent", "edge-getters")
+	zzverif.Assert(edges[1].GetTo() == to && edges[1].GetEdgeType() == ComputedEdge && len(edges[1].GetConditions()) == 1, "edge-getters")
+	zzverif.Assert(edges[2].GetTo() == other && edges[2].GetEdgeType() == TTUEdge && edges[2].GetTuplesetRelation() == "doc#parent", "edge-getters")
 	zzverif.Assert(wg.HasEdge(from, to, DirectEdge, "") && wg.HasEdge(from, other, TTUEdge, "doc#parent"), "has-edge-finds-what-was-added")
 	zzverif.Assert(!wg.HasEdge(from, to, TTUEdge, "") && !wg.HasEdge(from, other, TTUEdge, "doc#p") && !wg.HasEdge(to, from, DirectEdge, "") && !wg.HasEdge(nil, to, DirectEdge, ""), "has-edge-finds-nothing-else")
 	nd, found := wg.GetNodeByID("doc#viewer")
